@@ -25,6 +25,7 @@ type vfC18Case struct {
 	ReverseProxy          bool
 	Hosts                 []string
 	SetCookies            int
+	Threshold, SizeProbes int
 	Deletions             int
 }
 
@@ -140,6 +141,47 @@ func vfC18(w *vfWorld) {
 		do(host, pp+"/sign_in", fwd)
 		do(host, "/app/noauth", fwd)
 		do(host, pp+"/auth", fwd)
+	}
+	// size clause at its boundary: the session sizes around the split threshold of THIS world (which depends on the
+	// name, the domain and the other attributes), found by bisection on the number of cookies a login emits
+	if cfg.Store == "cookie" && t.Prob("c18.sizesweep", 350) {
+		host := "app.sim"
+		pb := w.NewBrowser("Bsize", "192.0.2.9:1")
+		parts := func(pad int) int {
+			pb.ClearJar()
+			idp.Padding = pad
+			st := pb.Do(rep, &vfReq{Method: "GET", Host: host, Target: pp + "/start?rd=%2Fapp"})
+			lg, ok := vfParseStart(w, st, "alice")
+			if st.Status != 302 || !ok {
+				return -1
+			}
+			cb := pb.Do(rep, &vfReq{Method: "GET", Host: host, Target: lg.CallbackTarget(pp)})
+			n := 0
+			for _, c := range cb.SetCookies {
+				if vfIsSessionCookie(cfg, c.Name) && c.Value != "" && c.MaxAge >= 0 {
+					n++
+				}
+			}
+			return n
+		}
+		if parts(12000) >= 2 {
+			lo, hi := 0, 12000
+			for hi-lo > 1 {
+				mid := (lo + hi) / 2
+				if parts(mid) >= 2 {
+					hi = mid
+				} else {
+					lo = mid
+				}
+			}
+			cs.Threshold = hi
+			for i := 0; i < 10; i++ {
+				// the padding is base64 text inside the ID token: a step of one changes the cookie by 0-2 bytes
+				parts(hi - 48 + t.Choice("c18.sizeoff", 64))
+				cs.SizeProbes++
+			}
+			w.probe("c18:size-sweep-around-split-threshold")
+		}
 	}
 	w.distKey = fmt.Sprintf("%v/%v/%v/%v/%v/%v/%d/%v", cs.Secure, cs.HTTPOnly, cs.SameSite, cs.Path, cs.Domains, cs.Hosts, cs.NameLen, cs.ReverseProxy)
 }
